@@ -142,7 +142,7 @@ def run(ctx, replay_case):
     outs_ = ["events"] if ctx.tier == "quick" else ["events", "pretty", "binary"]
     for fin in (None, "auto", "binary", "hex"):
         for typ in (None, "CommandResponseStream", "Command", "Response", "TPM2B_DIGEST", "TPM2B_DIGES"):
-            for cmd in (None, "GetRandom", "GetRandm"):
+            for cmd in (None, "GetRandom", "GetRandm", "0x999"):      # a number that names no command is an unknown name too (seed C19h)
                 for fo in outs_:
                     if not gfiles:
                         continue
